@@ -26,8 +26,8 @@ pub fn concrete_id(c: u8) -> ResourceId {
         1 => ResourceId::new_with_dynamic_id::<Cell0>(1),
         2 => ResourceId::new_with_dynamic_id::<Cell1>(0),
         3 => ResourceId::new_with_dynamic_id::<Cell1>(7),
-        4 => ResourceId::new_with_dynamic_id::<Cell0>(7),
-        5 => ResourceId::new_with_dynamic_id::<Cell1>(1),
+        4 => ResourceId::new_with_dynamic_id::<Cell0>(0x1_0000_0001),
+        5 => ResourceId::new_with_dynamic_id::<Cell1>(u64::MAX - 0xFF),
         _ => panic!("harness: bad concrete resource index"),
     }
 }
